@@ -6,7 +6,7 @@
    every variant (the tree structure does not depend on the cut search).
    Rib = the same function applied to the rotated points recorded by the hook. *)
 From Coupe Require Import Lib.Prelude Lib.SFloat Model.Rcb Gen.RcbGen
-  Proofs.SFOrder Proofs.RcbProofs Proofs.RcbInst Proofs.RcbTotal Proofs.F32Rank Proofs.F32Flocq Proofs.RcbTotalInst Proofs.RcbSched Proofs.RcbSchedInst.
+  Proofs.SFOrder Proofs.RcbProofs Proofs.RcbInst Proofs.RcbTotal Proofs.F32Rank Proofs.F32Flocq Proofs.RcbBox Proofs.RcbTotalInst Proofs.RcbSched Proofs.RcbSchedInst.
 From Coq Require Import Floats.SpecFloat Permutation.
 Open Scope Z_scope.
 
@@ -138,17 +138,27 @@ Proof. exact search_terminates32. Qed.
 Print Assumptions C03_search_terminates.
 
 (* no panic, no OutOfFuel, Ok with every element written (C03_rcb_bisect_tree
-   then gives ids < 2^iter_count): matching lengths, D coordinates per point
-   whose binary32 images are numbers, root box with finite bounds (decidable
-   premise box_ok32, evaluated on every case by the run glue) *)
+   then gives ids < 2^iter_count): matching lengths, D coordinates per point,
+   each a finite f64 value (canonical binary64) whose binary32 image is finite
+   ([coords_in_f32_range], the narrow contract of the run glue).  The former
+   decidable premise box_ok32 is now proved from the contract
+   (C03_box_ok32_holds: the f64 -> f32 cast is monotone, Flocq); the run glue
+   still evaluates it on every case as a cross-check. *)
 Theorem C03_rcb_total : forall fuel sched D k tol pts ws p0,
   (0 < D)%nat -> length ws = length p0 -> length pts = length p0 ->
-  Forall (fun p => length p = D) pts ->
-  coords_ok pts -> box_ok32 D pts ws = true ->
+  Forall (fun p => length p = D) pts -> coords_in_f32_range pts ->
   Z.of_nat fuel > 2 ^ 33 ->
   exists p, rcb_impl fuel sched D k tol pts ws p0 = Ok p.
-Proof. exact (fun fuel sched D k tol pts ws p0 => rcb_total32 rcb_variant fuel sched D k tol pts ws p0 eq_refl eq_refl). Qed.
+Proof. exact (fun fuel sched D k tol pts ws p0 => rcb_total32_contract rcb_variant fuel sched D k tol pts ws p0 eq_refl eq_refl). Qed.
 Print Assumptions C03_rcb_total.
+
+(* on the narrow contract the root box of the model (per axis the f64 min / max
+   found with `<` from (f64::MAX, f64::MIN), then cast `as f32`) has finite
+   canonical binary32 bounds that enclose every binary32 coordinate *)
+Theorem C03_box_ok32_holds : forall D pts ws, pts <> [] -> length pts = length ws ->
+  Forall (fun p => length p = D) pts -> coords_in_f32_range pts -> box_ok32 D pts ws = true.
+Proof. exact box_ok32_holds. Qed.
+Print Assumptions C03_box_ok32_holds.
 
 (* the rank hypotheses are satisfiable: integers in [0, 1000] with the integer midpoint *)
 Example C03_rank_hypotheses_satisfiable :
